@@ -1,14 +1,14 @@
 import ThriftVerif.Props.C17
 #print axioms Props.C17.generated_cfg_is_std
-#print axioms Props.C17.amp_escape_inverse
+#print axioms Props.C17.writer_plain
 #print axioms Props.C17.type_annotation_escaped_once
-#print axioms Props.C17.dump_literal_text
 #print axioms Props.C17.literal_roundtrip
+#print axioms Props.C17.literal_roundtrip_parsed
 #print axioms Props.C17.literal_roundtrip_iff_safe_witnesses
 #print axioms Props.C17.annotation_roundtrip
+#print axioms Props.C17.annotation_text_roundtrip
 #print axioms Props.C17.numeric_roundtrip_int
 #print axioms Props.C17.numeric_roundtrip_double
-#print axioms Props.C17.annotation_text_roundtrip
 #print axioms Props.C17.constvalue_roundtrip
 #print axioms Props.C17.dump_parse_partial
 #print axioms Props.C17.dump_accepted_partial
